@@ -6,7 +6,7 @@
    soundness theorems over the plain tree [mroot] are not yet proved (stated below as the
    checked, bounded obligations they currently are). *)
 From Coq Require Import List NArith.
-From Sia Require Import Prim.Tok Merkle.Tree Merkle.Forest Merkle.Rhp Merkle.RhpProofs Merkle.RhpRoot.
+From Sia Require Import Prim.Tok Merkle.Tree Merkle.Forest Merkle.Rhp Merkle.RhpProofs Merkle.RhpRoot Merkle.RgComplete.
 Import ListNotations.
 
 Theorem C16_accumulator_is_forest : forall H L ds xs, Repr hash (node H) L ds ->
@@ -64,3 +64,15 @@ Print Assumptions C16_metaroot_is_plain_root.
 Theorem C16_perfect_root_is_plain_root : forall H t, perfect hash t -> mroot H (leaves hash t) = root hash (node H) t.
 Proof. exact perfect_root. Qed.
 Print Assumptions C16_perfect_root_is_plain_root.
+
+(* ---- sector-range proofs: completeness ---- *)
+(* for every list of at most 2^30 sector roots and every non-empty range, the proof produced by BuildSectorRangeProof
+   (greedy aligned subtrees left of the range, then right of it, the last one clipped at the end of the list) is accepted
+   by VerifySectorRangeProof -- length check by the popcount formula included -- together with the covered roots, against
+   the plainly defined root. (Above 2^30 roots the builder's MaxInt32 bound and the verifier's MaxUint64 bound part ways.) *)
+Theorem C16_range_proof_complete : forall H (ls : list hash) start end_,
+  let n := N.of_nat (length ls) in
+  (0 < n <= 2 ^ 30)%N -> (start < end_)%N -> (end_ <= n)%N ->
+  verify_range_proof H (build_range_proof H ls start end_) (slice ls start (end_ - start)) start end_ n (mroot H ls) = true.
+Proof. exact range_proof_complete. Qed.
+Print Assumptions C16_range_proof_complete.
